@@ -290,6 +290,10 @@ def str_rule_types(version):
     return sorted(int(t) for t, rule in const.VALID_SETREQ.items() if rule is str)
 
 
+def presentation_types(version):
+    return sorted(int(t) for t in const_for(version).Presentation)
+
+
 def one_of(w, x, values):
     if not w.symbolic:
         return x in values
@@ -320,7 +324,10 @@ def gen_child(w, tag, cid, version, nvalues, ctype=None, special=()):
     from mysensors.sensor import ChildSensor
     child = ChildSensor.__new__(ChildSensor)
     child.id = cid
-    child.type = ctype if ctype is not None else w.fresh_int(f"{tag}.type", 0, 40)
+    if ctype is None:
+        ctype = w.fresh_int(f"{tag}.type")
+        w.assume_fast(one_of(w, ctype, presentation_types(version)))
+    child.type = ctype
     child.description = wire_payload(w, f"{tag}.desc", 1, 1)
     child.values = {}
     keys = []
@@ -349,11 +356,13 @@ def gen_node(w, tag, nid, version, shape):
     d["sensor_id"] = nid
     d["children"] = {}
     if shape.get("attrs", True):
-        d["type"] = w.fresh_int(f"{tag}.type", 0, 40)
+        d["type"] = w.fresh_int(f"{tag}.type")
+        w.assume_fast(one_of(w, d["type"], presentation_types(version)))
         d["sketch_name"] = wire_payload(w, f"{tag}.sketch", 1, 1)
         d["sketch_version"] = None
         d["_battery_level"] = w.fresh_int(f"{tag}.battery", 0, 100)
-        d["_heartbeat"] = w.fresh_int(f"{tag}.heartbeat")
+        # a heartbeat is only ever recorded by the 2.x heartbeat-response handler
+        d["_heartbeat"] = w.fresh_int(f"{tag}.heartbeat") if sleeping_possible(version) else 0
     else:
         d["type"] = None
         d["sketch_name"] = None
